@@ -8,7 +8,9 @@ RULE = ("random corpora (1-4 repositories in simple / compound shards, 28 % of t
         "documents, repository and file tombstones, 0-5 sorted symbol sections per document via Document.Symbols: adjacent, at offset 0, up to the end, "
         "inside multi-byte runs, rarely empty) written with the real ShardBuilder and read back with NewSearcher, x query "
         "trees of depth <= 4 over all modelled atom kinds incl. Symbol{Substring} / Symbol{Regexp} (14 % of the atoms; patterns = a section text, inside "
-        "one, straddling / just outside a section boundary) (patterns are substrings of real texts, case-flipped, boundary-straddling "
+        "one, straddling / just outside a section boundary) 30 % of the documents line-structured (1-4 lines of 1-4 words over a 9-word vocabulary, the word starting a line repeated alone on another line); "
+        "9 % of the atoms content regexps of the same-line shape lit.*lit(.*lit) with the literals taken from ONE line (first word at column 0 / last word at the line end / random cuts, sometimes reversed) "
+        "(patterns are substrings of real texts, case-flipped, boundary-straddling "
         "or noise; RepoSet / RepoIDs filters often contain every tombstoned repository plus as many alive ones as make matching = alive); non-trivial = the query selects a proper non-empty subset of the documents.")
 TRUSTED = ["correspondence harness harness/overlay/index/zz_verif_c01_test.go (generator, read-back of the index, serialiser, Go oracle)",
            "texts modelled as rune lists: byte-level operations of the code on valid UTF-8 are taken to coincide with the rune-level model",
